@@ -166,7 +166,7 @@ Definition dup_arg (e : expr) : bool :=
 
 (* ---------- nilValReturn (nilValReturn_checker.go): `if x == nil { return .., x, .. }` ----------
    The statement shape is input data (the fragment has no statements and no nil): whether the if body is a
-   single return, the condition's operator is ==, its right operand is spelled nil; the left operand and the
+   single return, the condition's operator is ==, its right operand is the predeclared nil; the left operand and the
    returned expressions as terms (None: outside the fragment, e.g. `nil`, `false`). *)
 Record nvr_shape := {
   nvr_single_return : bool; nvr_op_is_eq : bool; nvr_y_is_nil : bool;
